@@ -372,10 +372,52 @@ def dropped_text_rule(ctx):
     return obs
 
 
+def tuple_partner_rule(ctx):
+    """`(state, sub_paths)` pairs travel together: a call on the state of one branch takes the sub-paths bound with it"""
+    ob = ctx.ob
+    tc = ctx.tc
+    obs = []
+    k = 0
+    for f in tc.fns:
+        if not f.body or f.module[:2] != ["proc_gen", "expr"]:
+            continue
+        for a in sir.walk(f.body):
+            if a.get("k") != "arm":
+                continue
+            pairs = []
+            for t in sir.walk(a["pat"]):
+                if t.get("k") == "p_tuple" and len(t["elems"]) == 2 and all(e.get("k") == "p_ident" for e in t["elems"]):
+                    pairs.append((t["elems"][0]["name"], t["elems"][1]["name"]))
+            if len(pairs) < 2:
+                continue
+            firsts = {x: y for x, y in pairs}
+            seconds = {y for _x, y in pairs}
+            for c in sir.walk(a["body"]):
+                if c.get("k") == "mcall" and sir.strip_ref(c["recv"]).get("k") == "path" and sir.expr_str(sir.strip_ref(c["recv"])) in firsts:
+                    r = sir.expr_str(sir.strip_ref(c["recv"]))
+                    used = [sir.expr_str(sir.strip_ref(x)) for x in c["args"] if sir.expr_str(sir.strip_ref(x)) in seconds]
+                    if not used:
+                        continue
+                    k += 1
+                    okp = used == [firsts[r]]
+                    obs.append(ob("C06.paths/partner/%s/%s.%s" % (f.qual, r, c["m"]), okp, ctx.where(f), "`%s.%s(..)` is given `%s` (bound together with it: `%s`)" % (r, c["m"], used[0], firsts[r]),
+                                  witness=None if okp else "{{ c ? a : b + 1 }}: the guard of the false branch lists the true branch's sub-paths, a change of `b` is missed"))
+    if k < 2:
+        obs.append(ob("C06.floor/partners", False, "proc_gen/expr.rs", "only %d paired calls found (floor 2)" % k))
+    return obs
+
+
 def run(ctx):
     obs = runtime_rule(ctx)
     obs += guard_rule(ctx)
     obs += paths_rule(ctx)
     obs += scopes_rule(ctx)
     obs += dropped_text_rule(ctx)
+    obs += tuple_partner_rule(ctx)
+    # the update entry uses the binding map whenever a field is advertised: what disables a field is part of update soundness
+    from rules.c07 import collector_rule
+    for x in collector_rule(ctx):
+        x = dict(x)
+        x["key"] = x["key"].replace("C07.collector", "C06.fastpath/collector").replace("C07.", "C06.fastpath/")
+        obs.append(x)
     return obs
